@@ -155,6 +155,10 @@ func (w *icaChanWorld) mkVersion(kind string) string {
 		md.TxType = "single_msg"
 	case "wrong-ctrl":
 		md.ControllerConnectionId = "connection-7"
+	case "swapped": // the other side's identifiers: host id in the controller field and vice versa
+		md.ControllerConnectionId, md.HostConnectionId = w.connB, w.connA
+	case "host-as-ctrl":
+		md.ControllerConnectionId = w.connB
 	case "wrong-host":
 		md.HostConnectionId = "connection-7"
 	case "bad-version":
@@ -169,16 +173,30 @@ func (w *icaChanWorld) mkVersion(kind string) string {
 	return string(icatypes.ModuleCdc.MustMarshalJSON(&md))
 }
 
-var initVersionKinds = []string{"blank", "default", "default", "default", "json-enc", "bad-enc", "bad-tx", "wrong-ctrl", "wrong-host", "bad-version", "unparseable", "addr-valid", "addr-invalid", "spaces"}
+var initVersionKinds = []string{"blank", "default", "default", "default", "json-enc", "bad-enc", "bad-tx", "wrong-ctrl", "wrong-host", "swapped", "host-as-ctrl", "bad-version", "unparseable", "addr-valid", "addr-invalid", "spaces"}
 
 // newIcaChanWorld builds two chains with one connection.
 func newIcaChanWorld(t *testing.T) *icaChanWorld {
-	coord := ibctesting.NewCoordinator(t, 2)
+	// three chains: the controller chain A first gets a connection and a (mock) channel to a third chain C, so that
+	// the two ends of the A-B path have DIFFERENT connection identifiers (A: connection-1, B: connection-0) and the
+	// two chains allocate different channel identifiers (A starts at channel-1, B at channel-0). Controller-side
+	// store keys use A's connection id, host-side keys B's; a lookup with the wrong side's id must not go unnoticed.
+	coord := ibctesting.NewCoordinator(t, 3)
+	chainC := coord.GetChain(ibctesting.GetChainID(3))
 	w := &icaChanWorld{t: t, coord: coord, chainA: coord.GetChain(ibctesting.GetChainID(1)), chainB: coord.GetChain(ibctesting.GetChainID(2)),
 		ctrlPort: map[string]string{}, ctrlOrder: map[string]channeltypes.Order{}, hostOf: map[string]string{}, ctrlOf: map[string]string{}, pending: map[string]*channeltypes.Packet{}}
+	pathAC := ibctesting.NewPath(w.chainA, chainC).DisableUniqueChannelIDs()
+	pathAC.Setup()
 	w.base = ibctesting.NewPath(w.chainA, w.chainB).DisableUniqueChannelIDs()
 	w.base.SetupConnections()
 	w.connA, w.connB = w.base.EndpointA.ConnectionID, w.base.EndpointB.ConnectionID
+	if w.connA == w.connB {
+		t.Fatalf("the two ends of the path must have different connection identifiers, both are %s", w.connA)
+	}
+	if w.chainA.App.GetIBCKeeper().ChannelKeeper.GetNextChannelSequence(w.chainA.GetContext()) ==
+		w.chainB.App.GetIBCKeeper().ChannelKeeper.GetNextChannelSequence(w.chainB.GetContext()) {
+		t.Fatal("the two chains must allocate different channel identifiers")
+	}
 	return w
 }
 
@@ -380,7 +398,7 @@ func (w *icaChanWorld) probe(kind string, r *hx.Rng) (map[string]any, string) {
 			return nil, ""
 		}
 		id := cands[r.Intn(len(cands))]
-		vk := r.Pick([]string{"addr-valid", "default", "bad-enc", "wrong-ctrl", "wrong-host", "unparseable", "blank", "addr-invalid", "bad-version", "json-enc"})
+		vk := r.Pick([]string{"addr-valid", "default", "bad-enc", "wrong-ctrl", "wrong-host", "swapped", "host-as-ctrl", "unparseable", "blank", "addr-invalid", "bad-version", "json-enc"})
 		v := w.mkVersion(vk)
 		st, _ := w.chainA.App.GetIBCKeeper().PortKeeper.Route(w.ctrlPort[id])
 		err = st.OnChanOpenAck(ctxA, w.ctrlPort[id], id, "channel-0", v)
@@ -388,7 +406,7 @@ func (w *icaChanWorld) probe(kind string, r *hx.Rng) (map[string]any, string) {
 		in["version"] = versionIn(v)
 		in["vk"] = vk
 	case "try_probe": // host OnChanOpenTry with mutated metadata / port / connection
-		vk := r.Pick([]string{"default", "bad-enc", "wrong-ctrl", "wrong-host", "unparseable", "blank", "addr-invalid", "bad-version", "json-enc", "bad-tx"})
+		vk := r.Pick([]string{"default", "bad-enc", "wrong-ctrl", "wrong-host", "swapped", "unparseable", "blank", "addr-invalid", "bad-version", "json-enc", "bad-tx"})
 		v := w.mkVersion(vk)
 		hport := icatypes.HostPortID
 		conn := w.connB
